@@ -516,6 +516,17 @@ impl World {
         self.call(sid, "adv");
     }
 
+    /// Is the session past its handshake (SessionState::Running)?
+    pub fn is_running(&self, sid: usize) -> bool {
+        match self.sessions.get(&sid).map(|s| &s.sess) {
+            Some(Sess::P2PR(s)) => s.current_state() == SessionState::Running,
+            Some(Sess::P2PD(s)) => s.current_state() == SessionState::Running,
+            Some(Sess::Spec(s)) => s.current_state() == SessionState::Running,
+            Some(_) => true,
+            None => false,
+        }
+    }
+
     pub fn in_flight(&self, src: usize, dst: usize) -> usize {
         self.net.borrow().links.get(&(src, dst)).map_or(0, |q| q.len())
     }
